@@ -16,7 +16,7 @@ EXPLANATION = (
     "(R2) axis-kind consistency of the bounds tests inside mask functions on non-square grids (shared with C07.R1); "
     "(R3b) where step recomputes validity instead (Knapsack, TSP, Minesweeper, ...), the mask expression rewritten over the incoming state equals that validity test after erasing the action index and normalising comparisons -- only definite mismatches (same quantities, different strictness/constant/polarity) are reported, anything that cannot be aligned is recorded as undecided; (R3a) where step consults state.action_mask[...], the mask stored in the State by reset/step is the same value "
     "as the one shown in the Observation, so 'masked-in' and 'treated as valid' coincide; (R4) move tables used by the "
-    "mask agree with those used by step (shared with C09.R1). (R6) the declared and (where its symbolic shape is inferable) the emitted mask has exactly one entry per action of action_spec (DiscreteArray(n) -> (n,); joint MultiDiscrete [a, b, ..] -> (a, b, ..); per-agent [n]*k or full(k, n) -> (k, n)). (R7) a mask computed over flattened jnp.meshgrid coordinates (FlatPack) is reshaped in the axis order of the meshgrid. (R5) LevelBasedForaging: the mask ignores eaten food (paired-use instance table shared with C09.R3 / C12.R2). Not decided: that the mask equals the rules of each game "
+    "mask agree with those used by step (shared with C09.R1). (R6) the declared and (where its symbolic shape is inferable) the emitted mask has exactly one entry per action of action_spec (DiscreteArray(n) -> (n,); joint MultiDiscrete [a, b, ..] -> (a, b, ..); per-agent [n]*k or full(k, n) -> (k, n)). (R7) a mask computed over flattened jnp.meshgrid coordinates (FlatPack) is reshaped in the axis order of the meshgrid. (R8) sibling call sites: a mask helper that reset calls with exactly the value it stores in a state field is given, in step, the value step stores in that field (or an intermediate), never the superseded field of the incoming state. (R5) LevelBasedForaging: the mask ignores eaten food (paired-use instance table shared with C09.R3 / C12.R2). Not decided: that the mask equals the rules of each game "
     "(needs a reference semantics).")
 
 MIN_MASK_ENVS = 21
@@ -154,7 +154,9 @@ def check(tier: str) -> Result:
     n_mg = shape_rules.meshgrid_reshape_obligations(res, tree, "C04.R7")
     from . import lbf_rules
     n_lbf = lbf_rules.add_obligations(res, tree, "C04.R5", "mask")
+    from . import wiring
+    n_pc = wiring.paired_call_args(res, tree, "C04.R8", "mask", lambda ci: True)
     res.analysed = {"environments_with_mask": mask_envs, "step_consults_state_mask": reads_mask, "mask_vs_validity": r3b,
-                    "axis_typed_sites": n_axis, "table_pairings": n_tab}
+                    "axis_typed_sites": n_axis, "table_pairings": n_tab, "paired_reset_step_mask_call_arguments": n_pc}
     res.assumptions = ["records are not aliased across names inside step", "exceptions: none"]
     return res
